@@ -185,13 +185,11 @@ def run(ctx, ck):
 
     # ---------------------------------------------------------------- D2
     it = m.func('mininec.Mininec.near_field_iter')
-    ls = [l for l in loops_in(it.node) if isinstance(l, ast.For)]
-    ok = len(ls) == 1 and norm(ls[0].iter) == 'self.near_field_coord.T'
-    if ok:
-        mn, mx = loop_reaches_on_all_paths(ctx.flow(it), ls[0], lambda n: n.stmt is not None and any(
-            isinstance(x, ast.Yield) for x in ast.walk(n.stmt)))
-        ok = (mn, mx) == (1, 1)
-    ck.ob('R-EXH.grid-to-table', it.qual, ok, it.loc(), 'yields every grid point once')
+    from ..rules import yields_each_of
+    src_ = yields_each_of(ctx, it)
+    ck.ob('R-EXH.grid-to-table', it.qual, src_ == 'self.near_field_coord.T', it.loc(),
+          'yields every grid point once' if src_ == 'self.near_field_coord.T' else
+          'does not hand out every column of self.near_field_coord.T exactly once (%s)' % src_)
     grid_loops = [l for l in loops_in(g.node) if isinstance(l, ast.For) and 'near_field_iter' in norm(l.iter)]
     ck.floor('field loops over the grid', len(grid_loops), 1)
     for l in grid_loops:
